@@ -1,7 +1,7 @@
 (* Properties_C10.v -- regex matches are genuine, leftmost, greedy/left-biased, right group spans.
    Statements only; proofs are in ReProps*.v. *)
 From Coq Require Import List NArith ZArith.
-From NV Require Import Bytes GenConsts ReSyntax ReParse ReEmit ReVM ReSem RsetDefs ReProps ReProps2 ReProps3 ReProps4 ReProps5 ReProps9 ReGroups ReGroups2.
+From NV Require Import Bytes GenConsts ReSyntax ReParse ReEmit ReVM ReSem RsetDefs ReProps ReProps2 ReProps3 ReProps4 ReProps5 ReProps9 ReGroups ReGroups2 ReStrict.
 Import ListNotations.
 
 (* whatever the backtracking machine reports is a genuine run of the program (cut or no cut) *)
@@ -96,9 +96,10 @@ Print Assumptions C10_rset_index_partial.
    Together with C10_rset_index_partial: the index rset_find reports is that of an alternative whose OWN wrapper group
    took part in the match, and the groups handed back are that alternative's own.
    The hypothesis is decidable; tools/props/c10.py evaluates it (model request S) for every generated grammatical set and
-   the corpus and reports a set that fails it.  It cannot be dropped on the present parser: patterns that the parser
-   truncates silently (`(a)(b{3,1})`, `x(|)`, `a)(b`) are accepted by rset_make and fail it (ReGroups.rset_shape_examples;
-   open, fixes/C11-bad-repeat-rejected.patch).  Before fix f534655 `[a[*](x)` and {`[[:space:]()]+`, `y`} failed it too. *)
+   the corpus and reports a set that fails it.  Since the fixes 66f245a / 3139e7f it holds for every accepted set:
+   C10_accepted_shape, C10_rset_index_all below.  (Before them the parser truncated malformed patterns silently --
+   `(a)(b{3,1})`, `x(|)`, `a)(b` were accepted by rset_make and failed the check; before fix f534655 `[a[*](x)` and
+   {`[[:space:]()]+`, `y`} failed it too.) *)
 Theorem C10_rset_index : forall res flg rs, rset_shape res = true -> rset_make res flg = Ok (Some rs) ->
   exists body, tree (rs_prog rs) = NGrp body 1 1 1 /\
     wraps body (somes res) (map Z.to_nat (filter nonneg (firstn (rs_n rs) (rs_grp rs)))) /\
@@ -128,6 +129,33 @@ Theorem C10_rset_index_semantic : forall res flg rs d line n fl idx g c,
     regexec_d d (rs_prog rs) (rs_cflg rs) line (rs_grpcnt rs) eflg = (Ok (Some (psub_of (snd r) (rs_grpcnt rs))), c).
 Proof. exact rset_index_semantic. Qed.
 Print Assumptions C10_rset_index_semantic.
+
+(* Since the fix commits 66f245a (regex.c: a malformed repetition, an empty or unclosed group, an unconsumed rest reject the
+   pattern) and 3139e7f (rset.c: re_groupcount refuses a pattern that is not self-contained) the hypothesis rset_shape of
+   C10_rset_index / C10_rset_index_semantic holds for EVERY pattern set rset_make accepts (with at least one non-NULL
+   pattern), provided the bytes after the first byte of a character of the combined pattern are not special for the
+   scanner (mbok: true for ASCII patterns -- C10_ascii_mbok -- and for valid UTF-8, whose continuation bytes are >= 128;
+   an invalid lead byte directly before a parenthesis swallows it into a literal).  Proof (coq/ReStrict.v): re_groupcount's
+   scanner gcount is used as the lexer; every clean call of a parser function consumes a segment that counts as many
+   groups as the tree it returns has and never closes a group it did not open; a self-contained pattern is such a segment,
+   whatever follows it; two segments that start together and are both followed by a closing parenthesis coincide. *)
+Theorem C10_accepted_shape : forall res flg rs, rset_make res flg = Ok (Some rs) -> mbok (rset_pattern res) -> somes res <> [] ->
+  rset_shape res = true.
+Proof. exact accepted_shape. Qed.
+Print Assumptions C10_accepted_shape.
+
+Theorem C10_rset_index_all : forall res flg rs, rset_make res flg = Ok (Some rs) -> mbok (rset_pattern res) -> somes res <> [] ->
+  exists body, tree (rs_prog rs) = NGrp body 1 1 1 /\
+    wraps body (somes res) (map Z.to_nat (filter nonneg (firstn (rs_n rs) (rs_grp rs)))) /\
+    map snd (filter (fun zs => nonneg (fst zs)) (combine (firstn (rs_n rs) (rs_grp rs)) (rs_setgrpcnt rs))) = map re_groupcount (somes res) /\
+    rs_grpcnt rs = 1 + ngroups (tree (rs_prog rs)) /\ nth (rs_n rs) (rs_grp rs) 0%Z = Z.of_nat (rs_grpcnt rs) /\
+    map Z.to_nat (filter nonneg (firstn (rs_n rs) (rs_grp rs))) = nums 2 (somes res).
+Proof. exact rset_index_all. Qed.
+Print Assumptions C10_rset_index_all.
+
+Theorem C10_ascii_mbok : forall res, Forall (Forall (fun b => (b < 128)%N)) (somes res) -> somes res <> [] -> mbok (rset_pattern res).
+Proof. exact ascii_patterns_mbok. Qed.
+Print Assumptions C10_ascii_mbok.
 
 (* the documented backtracking depth is a constant of the specification; the engine's limit is generated *)
 Theorem C10_documented_depth : (256 <= NDEPT)%Z.
